@@ -297,3 +297,62 @@ Theorem C07_f62_from_bytes_with_padding_long : forall bs, (8 <= length bs)%nat -
   f62_from_bytes_with_padding bs = FbAssertLen.
 Proof. exact FieldBytesSpec.f62_from_bytes_with_padding_long. Qed.
 Print Assumptions C07_f62_from_bytes_with_padding_long.
+
+(* ---- coverage round: conversions, conjugate, compound assignments, base_element, raw byte view (f62) ---- *)
+From VProofs Require FieldConvSpec.
+
+Theorem C07_f62_from_u8 : forall x, 0 <= x < 2^8 ->
+  repr62 (f62_from_u8 x) /\ val62 (f62_from_u8 x) = x /\ f62_from_u8_ok x = true.
+Proof. exact FieldConvSpec.C62.f62_from_u8_spec. Qed.
+Print Assumptions C07_f62_from_u8.
+
+Theorem C07_f62_from_u16 : forall x, 0 <= x < 2^16 ->
+  repr62 (f62_from_u16 x) /\ val62 (f62_from_u16 x) = x /\ f62_from_u16_ok x = true.
+Proof. exact FieldConvSpec.C62.f62_from_u16_spec. Qed.
+Print Assumptions C07_f62_from_u16.
+
+Theorem C07_f62_from_u32 : forall x, 0 <= x < 2^32 ->
+  repr62 (f62_from_u32 x) /\ val62 (f62_from_u32 x) = x /\ f62_from_u32_ok x = true.
+Proof. exact FieldConvSpec.C62.f62_from_u32_spec. Qed.
+Print Assumptions C07_f62_from_u32.
+
+(* u64::from(e) / u128::from(e): the canonical residue, whichever of the two words represents it *)
+Theorem C07_f62_to_u64_u128 : forall e, repr62 e ->
+  f62_to_u64 e = val62 e /\ f62_to_u128 e = val62 e /\ 0 <= val62 e < M62 /\
+  f62_to_u64_ok e = true /\ f62_to_u128_ok e = true.
+Proof. exact FieldConvSpec.C62.f62_to_u64_spec. Qed.
+Print Assumptions C07_f62_to_u64_u128.
+
+Theorem C07_f62_try_from_bytes : forall bs, length bs = 8%nat -> Forall FieldBytesSpec.byte bs ->
+  match f62_try_from_bytes bs with
+  | None => M62 <= of_le_bytes bs
+  | Some e => of_le_bytes bs < M62 /\ repr62 e /\ val62 e = of_le_bytes bs
+  end /\ f62_try_from_bytes_ok bs = true.
+Proof. exact FieldConvSpec.C62.f62_try_from_bytes_spec. Qed.
+Print Assumptions C07_f62_try_from_bytes.
+
+Theorem C07_f62_conjugate : forall e, f62_conjugate e = e.
+Proof. exact FieldConvSpec.C62.f62_conjugate_spec. Qed.
+Print Assumptions C07_f62_conjugate.
+
+Theorem C07_f62_assign : forall fuel a b,
+  f62_add_assign a b = f62_add a b /\ f62_sub_assign a b = f62_sub a b /\
+  f62_mul_assign a b = f62_mul a b /\ f62_div_assign fuel a b = f62_div fuel a b.
+Proof. exact FieldConvSpec.C62.f62_assign_spec. Qed.
+Print Assumptions C07_f62_assign.
+
+Theorem C07_f62_base_element : forall e i, f62_base_element e i = if i =? 0 then Some e else None.
+Proof. exact FieldConvSpec.C62.f62_base_element_spec. Qed.
+Print Assumptions C07_f62_base_element.
+
+(* as_bytes / elements_as_bytes expose the LAZY internal word (zero-copy; IS_CANONICAL = false): injective on
+   words, so the two words of one residue have different raw bytes.  Serializable and the hashers use as_int. *)
+Theorem C07_f62_as_bytes_word_inj : forall a b, repr62 a -> repr62 b ->
+  f62_as_bytes a = f62_as_bytes b -> a = b.
+Proof. exact FieldConvSpec.C62.f62_as_bytes_word_inj. Qed.
+Print Assumptions C07_f62_as_bytes_word_inj.
+
+Theorem C07_f62_as_bytes_not_canonical :
+  exists a b, repr62 a /\ repr62 b /\ val62 a = val62 b /\ f62_as_bytes a <> f62_as_bytes b.
+Proof. exact FieldConvSpec.C62.f62_as_bytes_not_canonical. Qed.
+Print Assumptions C07_f62_as_bytes_not_canonical.
